@@ -35,7 +35,9 @@ def numstr(rng):
         s += rng.choice([b" ", b"\t", b"  ", b"\x7f"])
     if rng.chance(1, 3):
         s += b"-"
-    nd = rng.weighted([(0, 1), (1, 4), (3, 4), (9, 2), (18, 2)])
+    nd = rng.weighted([(0, 2), (1, 4), (3, 4), (9, 2), (18, 2)])
+    if rng.chance(1, 6):
+        return (b"-" if rng.chance(1, 2) else b"") + rng.choice([b"0", b"", b"00"]) + b"." + bytes(48 + rng.below(10) for _ in range(rng.range(1, 6)))
     if rng.chance(1, 4):
         s += b"0" * rng.range(1, 3)
     for _ in range(nd):
@@ -260,6 +262,22 @@ def check(run):
                 for k in range(3):
                     if c[i][j] > 0 and c[j][k] > 0 and not c[i][k] > 0:
                         run.violation(desc, "comparator not transitive on %d,%d,%d" % (i, j, k))
+        if mode[1] == "1":
+            import re as _re
+            from decimal import Decimal as _D
+            def num(b):
+                t = b.decode("latin-1")
+                if not _re.fullmatch(r"-?(\d{1,15}(\.\d{1,10})?|\.\d{1,10})", t):
+                    return None
+                return _D(t if not t.startswith("-.") and not t.startswith(".") else t.replace(".", "0.", 1))
+            for i in range(3):
+                for j in range(3):
+                    a, b = num(ks[i][0]), num(ks[j][0])
+                    if a is None or b is None or a == b:
+                        continue
+                    exp = -1 if a > b else 1
+                    if c[i][j] != exp:
+                        run.violation(desc, "real-number comparator disagrees with numeric order on keys %d,%d (%s vs %s)" % (i, j, ks[i][0], ks[j][0]))
         if mode[0] == "1":
             def dec(b):
                 n, base_ = 0, 1
